@@ -16,12 +16,32 @@ def slice_loop_stage(ev, tier, seed):
     return [], None
 
 
+def tlaps_stage(ev, tier, seed):
+    """SliceProofs.tla: the saturation / range / variant lemmas for ALL integers, checked by the TLA+ proof system."""
+    import subprocess, re, time, os
+    from checklib import SPEC, ToolError, log
+    t = time.time()
+    p = subprocess.run(["timeout", "900", "tlapm", "--threads", "8", "--cleanfp", "SliceProofs.tla"], cwd=SPEC,
+                       stdout=subprocess.PIPE, stderr=subprocess.STDOUT, text=True)
+    m = re.search(r"All (\d+) obligations? proved", p.stdout)
+    if p.returncode != 0 or not m:
+        log(p.stdout[-2000:])
+        raise ToolError("tlapm did not prove SliceProofs.tla (a proof failure is a failure of the SPECIFICATION side)")
+    n = int(m.group(1))
+    ev.extra["tlaps"] = {"module": "SliceProofs.tla", "obligations": n, "discharged": n, "checker_cmd": "tlapm --threads 8 --cleanfp SliceProofs.tla",
+                         "wall_s": round(time.time() - t, 1)}
+    ev.stages.append({"stage": "TLAPS SliceProofs", "obligations": n, "discharged": n, "wall_s": round(time.time() - t, 1),
+                      "note": "ClampUpInRange ClampDownInRange BoundSaturatesUp/Down RepresentativeUp/Down StepSaturates(/Down) VariantUp/Down EmittedInRangeUp/Down IndexInRange - over all integers"})
+    log(f"[tlaps] SliceProofs: {n} obligations proved in {time.time()-t:.1f}s")
+    return [], None
+
+
 NT = "non-trivial = the specification's nodelist is non-empty; distinct = distinct REPLAY lines"
 PROPS["C01"] = make_prop("C01", [ES("C01", "C01", "nodes"), ES("C01", "C11", "nodes"), ES("C01", "C05", "nodes"), TE("C01", {"nodes", "outcome", "seg"})],
     "every (document, query) pair of universe C01 (strided by seed) driven through the evaluation machine; " + NT, COMMON_ASSUME)
 PROPS["C02"] = make_prop("C02", [ES("C02", "C01", "order"), ES("C02", "C11", "order"), TE("C02", {"order"})],
     "as C01 but the result SEQUENCE is compared; " + NT, COMMON_ASSUME)
-PROPS["C03"] = make_prop("C03", [ES("C03", "C03", "paths"), TE("C03", {"paths"})],
+PROPS["C03"] = make_prop("C03", [ES("C03", "C03", "paths"), ES("C03", "C11", "paths", mode="paths"), ES("C03", "C01", "paths", mode="paths"), TE("C03", {"paths"})],
     "member names over a hostile alphabet reached through every route kind; each result's path compared with the spec's NormalizedPath of the node found by address, equal-paths<=>same-node, and re-query of the reported path; " + NT, COMMON_ASSUME)
 PROPS["C04"] = make_prop("C04", [ES("C04", "C04", "nodes"), TE("C04", {"cmp"})],
     "all pairs of operand values x 6 operators x operand forms embedded as $[?lhs op rhs]; the child is selected iff the spec's Compare is true; " + NT, COMMON_ASSUME)
@@ -30,7 +50,7 @@ PROPS["C05"] = make_prop("C05", [ES("C05", "C05", "order")],
 PROPS["C10"] = make_prop("C10", [ES("C10", "C10", "nodes")],
     "regex ASTs of depth <= 2 rendered to patterns x subject strings (match and search), and length/count/value over every JSON type and NOTHING; " + NT,
     COMMON_ASSUME + ["patterns containing ^ or $ are outside the universe (RFC 9485 reads them as literals, the implementation's dialect as anchors)"])
-PROPS["C11"] = make_prop("C11", [slice_loop_stage, ES("C11", "C11", "order"), TE("C11", {"slice"})],
+PROPS["C11"] = make_prop("C11", [tlaps_stage, slice_loop_stage, ES("C11", "C11", "order"), TE("C11", {"slice"})],
     "all (start,end,step) over a window around the array length plus the +-BIG abstraction of +-(2^53-1) x all lengths; all indices; also under a descendant segment; plus the loop machine SliceLoop.tla on the spec side; " + NT,
     COMMON_ASSUME + ["BIG abstraction: an integer beyond the window behaves like its saturated representative (DESIGN 3.1)"])
 PROPS["C12"] = make_prop("C12", [lambda ev, tier, seed: session_stage(ev, "C12", tier, seed), ES("C12", "C01", "entry"), ES("C12", "C05", "entry")],
